@@ -178,6 +178,29 @@ def check(rep, F, tier, replay=None):
         o = ff.Origins(F, fid).of_place("_0")
         if not (has_origin(o, call_origin("blake2b256")) and has_origin(o, call_origin("AuxiliaryData::to_bytes"))):
             rep.violation("AUX", "hash_auxiliary_data", "hash_auxiliary_data is not blake2b256(auxiliary_data.to_bytes())", {})
+    # SIB-dedup: the hash side writes de-duplicated *views*, the emitted witness set holds de-duplicated *clones*: same equivalence
+    import re
+    PR = re.compile(r"(BTreeSet|HashSet|BTreeMap|HashMap|LinkedHashMap|LinkedHashSet).*::(insert|contains|contains_key|entry)$|slice::<impl \[T\]>::contains$|Vec::<T, A>::(dedup|dedup_by|dedup_by_key)$|Iterator::(any|position|find)$")
+    rep.rule("SIB-dedup", "deduplicated_view (what is hashed / written in set form) and deduplicated_clone (what the witness set holds) of PlutusList, NativeScripts and PlutusScripts de-duplicate with the same primitive (an ordered-set insert over the element's Ord, which for datums includes the preserved original bytes)")
+    for T in ("PlutusList", "NativeScripts", "PlutusScripts"):
+        prim = {}
+        for m in ("deduplicated_view", "deduplicated_clone"):
+            ids = F.by_key("%s::%s" % (T, m))
+            if len(ids) != 1:
+                rep.lost("%s::%s not found" % (T, m))
+                continue
+            cs = set()
+            for sub in [ids[0]] + [c for c in F.fns if c.startswith(ids[0] + "::{closure")]:
+                for c in F.calls(sub):
+                    if c.to and PR.search(c.to):
+                        cs.add(c.to)
+            prim[m] = cs
+        if len(prim) == 2:
+            rep.inst("SIB-dedup")
+            if prim["deduplicated_view"] != prim["deduplicated_clone"] or not prim["deduplicated_view"]:
+                rep.violation("SIB-dedup", "%s" % T, "%s::deduplicated_view de-duplicates with %s but deduplicated_clone with %s: the hashed / set-form list and the emitted witness list can differ in which elements they keep (e.g. two datums equal as values but with different preserved bytes)" % (T, sorted(H.short(x) for x in prim["deduplicated_view"]) or "nothing", sorted(H.short(x) for x in prim["deduplicated_clone"]) or "nothing"), {})
+            elif not all("BTreeSet" in x for x in prim["deduplicated_view"]):
+                rep.violation("SIB-dedup", "%s|unordered" % T, "%s de-duplicates with %s instead of an ordered-set insert" % (T, sorted(prim["deduplicated_view"])), {})
     return rep.finish(
         EXPLANATION,
         ["PlutusWitnesses::collect de-duplicates with ordered sets (C18 DEDUP rule)", "language views encoding follows the ledger (not checked: a frozen byte fragment would be brittle)"],
